@@ -14,6 +14,7 @@ import (
 	"strings"
 	"sync"
 	"time"
+	"verif/c08net"
 
 	"verif/consnet"
 	"verif/core"
@@ -46,11 +47,19 @@ type chain struct {
 }
 
 func main() {
+	if c08net.IsWorker() {
+		c08net.WorkerMain()
+		return
+	}
 	if consnet.IsWorker() {
 		consnet.WorkerMain(os.Getenv("VERIF_WORKER_DIR"), consnet.DefaultRun)
 		return
 	}
 	run := core.Start("C08", "exploration", "CONSNET")
+	if run.ReplayPath != "" && c08net.IsReplayCase(run.ReplayPath) {
+		c08net.Replay(run)
+		run.Finish(nil, nil)
+	}
 	if run.ReplayPath != "" {
 		var sc consnet.Scenario
 		if err := run.ReplayCase(&sc); err != nil {
@@ -227,22 +236,28 @@ func main() {
 		core.Fatal("receiver states never reached: %v", notTriggered)
 	}
 	samples.Add(map[string]string{"state": "prevote", "case": "VoteMessage.Vote.ValidatorIndex=-1 (re-signed by the Byzantine validator)"})
+	// part (ii): peer-state poisoning and the block-sync / mempool / pex channels on a live node
+	netCov := c08net.Run(run)
+	if ev, ok := netCov["evaluations"].(int); ok {
+		total += ev
+	}
 	run.Finish(core.Coverage{
-		"evaluations":                total,
-		"distinct_nontrivial":        classes.Len(),
-		"rule":                       "receiver = one real ConsensusState in each of 8 states (start, Propose without proposal, proposal without block, Prevote, Precommit, Commit waiting for the block, locked in round 1, NewHeight of height 2); inputs through the real ConsensusReactor.Receive: every one of the 9 registered consensus messages (valid instance taken from the live execution or signed by the Byzantine validator) with every exported field, recursively, set in turn to each boundary value (15 integers, 5 byte-slice shapes, 3 bit-array shapes, nil pointers, 3 signature shapes), each also re-signed by the Byzantine validator where it is the legitimate signer; every valid message on every wrong channel; every single-byte substitution {00,01,7f,80,ff} and every truncation of every valid encoding; every 1-byte string on every channel (thorough: every 2-byte string); plus every single-mutation block of the C02 list proposed by the round's Byzantine proposer. distinct_nontrivial = distinct (state, message type) classes exercised",
-		"executions":                 executions,
-		"rejected_state_unchanged":   rejected,
-		"accepted_state_changed":     accepted,
+		"part_ii_live_node":           netCov,
+		"evaluations":                 total,
+		"distinct_nontrivial":         classes.Len(),
+		"rule":                        "receiver = one real ConsensusState in each of 8 states (start, Propose without proposal, proposal without block, Prevote, Precommit, Commit waiting for the block, locked in round 1, NewHeight of height 2); inputs through the real ConsensusReactor.Receive: every one of the 9 registered consensus messages (valid instance taken from the live execution or signed by the Byzantine validator) with every exported field, recursively, set in turn to each boundary value (15 integers, 5 byte-slice shapes, 3 bit-array shapes, nil pointers, 3 signature shapes), each also re-signed by the Byzantine validator where it is the legitimate signer; every valid message on every wrong channel; every single-byte substitution {00,01,7f,80,ff} and every truncation of every valid encoding; every 1-byte string on every channel (thorough: every 2-byte string); plus every single-mutation block of the C02 list proposed by the round's Byzantine proposer. distinct_nontrivial = distinct (state, message type) classes exercised",
+		"executions":                  executions,
+		"rejected_state_unchanged":    rejected,
+		"accepted_state_changed":      accepted,
 		"panics_contained_in_receive": contained,
-		"node_goroutine_deaths":      deaths,
-		"malformed_blocks_proposed":  len(blockScs),
-		"malformed_block_deaths":     blockDeaths,
-		"chains_cut_by_deadline":     unfinished,
-		"cases_by_message_type":      byType,
-		"exhaustive":                 unfinished == 0,
-		"samples":                    samples.List(),
+		"node_goroutine_deaths":       deaths,
+		"malformed_blocks_proposed":   len(blockScs),
+		"malformed_block_deaths":      blockDeaths,
+		"chains_cut_by_deadline":      unfinished,
+		"cases_by_message_type":       byType,
+		"exhaustive":                  unfinished == 0,
+		"samples":                     samples.List(),
 	}, []string{"a panic inside Reactor.Receive is contained by MConnection._recover in a real node (peer disconnected) and is allowed (DESIGN §6.3); a panic on the consensus goroutine kills the process and is a violation",
 		"'fails validation' is decided by a reference predicate (decodes; signature verifies for the claimed validator / the round's proposer; part proof verifies); only then must the round state stay exactly as it was",
-		"peer-state poisoning that only shows in the gossip goroutines (part ii of DESIGN §5 C08) is not covered by this driver"})
+		"part (ii) runs a live single-validator node with real goroutines: its scenario space is enumerated exhaustively, the in-process schedule is not controlled; oracles are progress-based, a missed deadline is inconclusive, a candidate is reported only when it reproduces 5/5 alone"})
 }
